@@ -41,6 +41,8 @@
 #include <new>
 #include <stdexcept>
 #include <tuple>
+#include <type_traits>
+#include <memory>
 
 #include <dune/common/alignedallocator.hh>
 #include <dune/common/debugalign.hh>
@@ -200,14 +202,27 @@ static bool rangeRW(uintptr_t lo, uintptr_t hi, uintptr_t page) {
 #include "cxx_c15_shared.hh"
 #include "cxx_c15_pool.inc"
 
+// the allocator a standard container obtains for element type U from an allocator `a` of type A
+template <class A, class U>
+struct Rebound {
+  typedef typename std::allocator_traits<A>::template rebind_alloc<U> type;
+  static type make(const A& a) {
+    if constexpr (std::is_constructible_v<type, const A&>) return type(a); else return type();
+  }
+};
+
 template <class T>
 struct MallocImpl : RawIface {
   Dune::MallocAllocator<T> a;
   MallocImpl() {
     sz = sizeof(T); al = alignof(T);
     promised = alignof(T);   // an allocator for T must return storage aligned for T
+    promisedRebound = alignof(U);
     header = "max=" + std::to_string(a.max_size());
   }
+  typedef typename Twice<T>::type U;
+  void* allocateRebound(size_t n) override { auto r = Rebound<Dune::MallocAllocator<T>, U>::make(a); return r.allocate(n); }
+  void deallocateRebound(void* p, size_t n) override { auto r = Rebound<Dune::MallocAllocator<T>, U>::make(a); r.deallocate(static_cast<U*>(p), n); }
   void* allocate(size_t n) override { return a.allocate(n); }
   void deallocate(void* p, size_t n) override { a.deallocate(static_cast<T*>(p), n); }
   void* allocateHint(size_t n, const void* hint) override { return a.allocate(n, hint); }
@@ -224,11 +239,15 @@ struct AlignedImpl : RawIface {
   AlignedImpl() {
     sz = sizeof(T); al = alignof(T);
     promised = A == -1 ? alignof(T) : (size_t)A;
+    promisedRebound = A == -1 ? alignof(U) : (size_t)A;   // the requested alignment belongs to the family, not to T
     header = "max=" + std::to_string(a.max_size()) + " align=" + std::to_string(Dune::AlignedAllocator<T, A>::alignment);
   }
   void* allocate(size_t n) override { return a.allocate(n); }
   void deallocate(void* p, size_t n) override { a.deallocate(static_cast<T*>(p), n); }
   void* allocateHint(size_t n, const void* hint) override { return a.allocate(n, hint); }
+  typedef typename Twice<T>::type U;
+  void* allocateRebound(size_t n) override { auto r = Rebound<Dune::AlignedAllocator<T, A>, U>::make(a); return r.allocate(n); }
+  void deallocateRebound(void* p, size_t n) override { auto r = Rebound<Dune::AlignedAllocator<T, A>, U>::make(a); r.deallocate(static_cast<U*>(p), n); }
   void* allocateVia(size_t n) override { Dune::AlignedAllocator<T, A> b(a); return b.allocate(n); }
   void deallocateVia(void* p, size_t n, bool convert) override {
     // the rebound allocator of another element type shares the deallocation function (inherited from MallocAllocator)
@@ -239,7 +258,10 @@ struct AlignedImpl : RawIface {
 template <class T>
 struct DebugImpl : RawIface {
   Dune::DebugAllocator<T> a;
-  DebugImpl() { sz = sizeof(T); al = alignof(T); promised = alignof(T); header = "dbg"; }
+  DebugImpl() { sz = sizeof(T); al = alignof(T); promised = alignof(T); promisedRebound = alignof(U); header = "dbg"; }
+  typedef typename Twice<T>::type U;
+  void* allocateRebound(size_t n) override { auto r = Rebound<Dune::DebugAllocator<T>, U>::make(a); return r.allocate(n); }
+  void deallocateRebound(void* p, size_t n) override { auto r = Rebound<Dune::DebugAllocator<T>, U>::make(a); r.deallocate(static_cast<U*>(p), n); }
   void* allocate(size_t n) override { return a.allocate(n); }
   void deallocate(void* p, size_t n) override { a.deallocate(static_cast<T*>(p), n); }
   void* allocateHint(size_t n, const void* hint) override { return a.allocate(n, hint); }
@@ -292,7 +314,7 @@ static void registerAll() {
 // ---------------------------------------------------------------------------------------------------------------
 // the independent oracle: interval map of live blocks + tags
 // ---------------------------------------------------------------------------------------------------------------
-struct LiveBlock { unsigned char* p; size_t bytes; size_t n; uint64_t serial; bool sparse = false; };
+struct LiveBlock { unsigned char* p; size_t bytes; size_t n; uint64_t serial; bool sparse = false; bool rebound = false; };
 static const size_t SPARSE_EDGE = 4096;   // large blocks are written/verified in their first and last SPARSE_EDGE bytes only
 
 struct Shadow {
@@ -513,7 +535,9 @@ static Result execRaw(int kind, size_t sz, size_t al, size_t param, const std::v
     sh.remove((uintptr_t)b.p);
     long unmapsBefore = g_unmapCalls;
     g_trackMap = kind == K_DEBUG;
-    if (via == 0) a->deallocate(b.p, withSize ? b.n : 0); else a->deallocateVia(b.p, b.n, via == 2);
+    if (b.rebound) a->deallocateRebound(b.p, withSize ? b.n : 0);   // blocks of the rebound allocator go back through it
+    else if (via == 0) a->deallocate(b.p, withSize ? b.n : 0);
+    else a->deallocateVia(b.p, b.n, via == 2);
     g_trackMap = false;
     if (kind == K_DEBUG && !keep) {
       if (g_unmapCalls != unmapsBefore + 1) sh.bad("op " + std::to_string(opno) + ": deallocate made " + std::to_string(g_unmapCalls - unmapsBefore) + " munmap calls");
@@ -537,8 +561,13 @@ static Result execRaw(int kind, size_t sz, size_t al, size_t param, const std::v
   for (const std::string& op : ops) {
     ++opno;
     if (!sh.fail.empty()) { outs.push_back("?"); continue; }
-    if (op[0] == 'a' || op[0] == 'h' || op[0] == 'c') {
-      // a<n>: allocate(n); h<n>: allocate(n, hint); c<n>: allocate(n) through a copy of the allocator
+    if (op[0] == 'a' || op[0] == 'h' || op[0] == 'c' || op[0] == 'r') {
+      // a<n>: allocate(n); h<n>: allocate(n, hint); c<n>: allocate(n) through a copy of the allocator;
+      // r<n>: allocate(n) objects of twice the size through allocator_traits<Alloc>::rebind_alloc
+      const bool rebound = op[0] == 'r';
+      const size_t sz = rebound ? 2 * a->sz : a->sz;
+      const size_t promised = rebound ? a->promisedRebound : a->promised;
+      if (rebound) dv::stat("op_alloc_rebound");
       unsigned long long n;
       if (!parseNum(op, 1, n)) { res = badCase("op"); break; }
       if (op[0] != 'a') dv::stat(op[0] == 'h' ? "op_alloc_hint" : "op_alloc_via_copy");
@@ -552,7 +581,7 @@ static Result execRaw(int kind, size_t sz, size_t al, size_t param, const std::v
       int recsBefore = g_nMapRecs;
       try {
         g_trackMap = kind == K_DEBUG;
-        vp = op[0] == 'a' ? a->allocate((size_t)n) : op[0] == 'h' ? a->allocateHint((size_t)n, live.empty() ? (const void*)&n : (const void*)live.back().p) : a->allocateVia((size_t)n);
+        vp = rebound ? a->allocateRebound((size_t)n) : op[0] == 'a' ? a->allocate((size_t)n) : op[0] == 'h' ? a->allocateHint((size_t)n, live.empty() ? (const void*)&n : (const void*)live.back().p) : a->allocateVia((size_t)n);
         g_trackMap = false;
       } catch (std::bad_alloc&) {
         g_trackMap = false;
@@ -573,7 +602,7 @@ static Result execRaw(int kind, size_t sz, size_t al, size_t param, const std::v
       }
       size_t bytes = (size_t)trueBytes;
       if (!vp) { sh.bad(at + "null pointer returned"); continue; }
-      if (p % a->promised != 0) sh.bad(at + "block not aligned to " + std::to_string(a->promised));
+      if (p % promised != 0) sh.bad(at + "block not aligned to " + std::to_string(promised) + (rebound ? " (rebound allocator)" : ""));
       if (kind != K_DEBUG) {
         if (bytes && malloc_usable_size(vp) < bytes) { sh.bad(at + "block smaller than requested"); continue; }
       } else if (readMaps()) {
@@ -587,7 +616,7 @@ static Result execRaw(int kind, size_t sz, size_t al, size_t param, const std::v
         }
       }
       sh.add(p, bytes, opno);
-      LiveBlock b{(unsigned char*)vp, bytes, (size_t)n, ++serial, bytes > (1u << 22)};
+      LiveBlock b{(unsigned char*)vp, bytes, (size_t)n, ++serial, bytes > (1u << 22), rebound};
       if (sh.fail.empty()) fillTag(b);   // whole extent writable (ASan / the guard page object otherwise)
       live.push_back(b);
     } else if (op[0] == 'f') {
@@ -839,7 +868,9 @@ static std::string genRawOps(Rng& r, int kind, size_t sz, size_t page, long maxO
         n = r.below(cap / sz + 2);
         if (r.coin(1, 3)) n = r.below(9);
       }
-      ops.push_back(std::string(r.coin(1, 6) ? (r.coin() ? "h" : "c") : "a") + u64s(n));
+      // r<n>: twice the bytes; keep clear of the range where the OS decides (64 MiB .. 2^47)
+      const bool canRebind = (u128)n * sz * 2 <= (1u << 26) || (u128)n * sz >= ((u128)1 << 47);
+      ops.push_back(std::string(canRebind && r.coin(1, 6) ? "r" : r.coin(1, 6) ? (r.coin() ? "h" : "c") : "a") + u64s(n));
       if ((u128)n * sz < ((u128)1 << 47)) { ++live; if ((u128)n * sz <= (1u << 22)) served.push_back(n); }
     } else {
       long k = r.coin(1, 3) ? 0 : r.coin() ? live - 1 : r.range(0, live - 1);
